@@ -3,7 +3,8 @@
 From Coq Require Import List String NArith Bool.
 From FB Require Import Lib.Bytes Lib.Layout Gen.RustDispatch Gen.RustABI Model.Server Spec.KernelABI Spec.Requests
   Spec.WfReq Proofs.ServerDispatch Proofs.ServerPerform Proofs.ServerReply Proofs.ServerDecide Proofs.ServerHandle
-  Proofs.ServerDecodeLib Proofs.ServerDecodeOps Proofs.ServerDecodeOps2 Proofs.ServerDecode.
+  Proofs.ServerDecodeLib Proofs.ServerDecodeOps Proofs.ServerDecodeOps2 Proofs.ServerDecode
+  Model.ServerSrc Gen.RustHandlers Proofs.ServerHandlersSrc Proofs.ServerHandlersSrcSpec.
 Import ListNotations.
 Local Open Scope string_scope.
 Local Open Scope list_scope.
@@ -108,3 +109,80 @@ Print Assumptions C02_every_handler_exact.
 Print Assumptions C01_answer_required.
 Print Assumptions C01_reply_is_one_packet.
 Print Assumptions C01_answer_exactly_one_packet.
+
+(* ---------------------------------------------------------------------------------------------
+   Tie of the hand model to the SOURCE of the handlers.  Gen/RustHandlers.v is re-translated from the
+   bodies of the handler functions of src/api/server/sync_io.rs on every run: per dispatch arm the
+   ordered request reads, the tests that guard the filesystem call, and the call itself as a function
+   of the decoded request (struct fields by NAME through the translated layouts, translated constants).
+   [src_calls e cfg h ctx r wcap] = the calls the source's handler makes on request body [r].
+
+   For every row of that table and ALL configurations, headers, caller contexts, request bodies,
+   filesystem answers and reply capacities: the model's handler makes exactly these calls. *)
+Theorem C02_src_calls :
+  Forall (fun e => match find_handler (se_op e) handlers with
+                   | Some f => forall cfg h ctx r fr wcap, bytes_ok r ->
+                                 fst (f cfg h ctx r fr wcap) = src_calls e cfg h ctx r wcap
+                   | None => False
+                   end) src_handlers.
+Proof. exact src_ties_all. Qed.
+
+(* every opcode the model dispatches is in the translated table or in the translator's explicit list of handlers
+   outside its subset; that list is exactly these three (INIT's decoding is C12) *)
+Theorem C02_src_table_covers_model :
+  forallb (fun op => existsb (N.eqb op) (map se_op src_handlers) || existsb (N.eqb op) (map fst untranslated_handlers))
+          (26 :: map fst handlers) = true.
+Proof. exact src_table_covers. Qed.
+Theorem C02_src_untranslated_are :
+  untranslated_handlers = [(21, "setxattr"); (26, "init"); (39, "ioctl")].
+Proof. exact src_untranslated_pinned. Qed.
+
+(* the same at the level of handle_message, for arbitrary (not only well-formed) requests: after the header read,
+   the id remap and the size gate, the calls are the id-remap call and then what the source's handler body does *)
+Theorem C02_src_decide_calls : forall e, In e src_handlers ->
+  forall cfg req fr wcap hb r du dg,
+    bytes_ok req -> read_obj 40 req = Some (hb, r) ->
+    h_opcode (parse_hdr hb) = se_op e ->
+    cfg_remap cfg = RemapOk du dg ->
+    h_len (parse_hdr hb) <= MAX_BUFFER_SIZE + BUFFER_HEADER_SIZE ->
+    let h := parse_hdr hb in
+    fst (fst (decide cfg req fr wcap)) =
+      mk "id_remap" (h_uid h, h_gid h, h_pid h) [AN (h_nodeid h)] ::
+      src_calls e cfg h ((h_uid h + du) mod 4294967296, (h_gid h + dg) mod 4294967296, h_pid h) r wcap.
+Proof. exact src_decide_calls. Qed.
+
+(* composition with C02_every_handler_exact: on every well-formed request the call read off the Rust handler body
+   (crate layouts, crate constants) is exactly the call the specification prescribes (kernel layouts, kernel names) *)
+Theorem C02_src_calls_meet_spec : forall e, In e src_handlers ->
+  forall q cfg cap ctx,
+    wf_req q = true -> q_op q = se_op e -> env_ok cfg cap q = true ->
+    src_calls e cfg (qhdr q) ctx (body q) cap =
+    match expected_call q ctx with Some c => [c] | None => [] end.
+Proof. exact src_calls_meet_spec. Qed.
+
+Theorem C02_src_decide_encoded : forall e, In e src_handlers ->
+  forall q cfg fr cap du dg,
+    wf_req q = true -> q_op q = se_op e -> cfg_remap cfg = RemapOk du dg ->
+    fst (fst (decide cfg (encode_req q) fr cap)) =
+      remap_call q ::
+      src_calls e cfg (qhdr q) ((q_uid q + du) mod 2 ^ 32, (q_gid q + dg) mod 2 ^ 32, q_pid q) (body q) cap.
+Proof. exact src_decide_encoded. Qed.
+
+(* non-vacuity: 43 rows; the WRITE row evaluated on the sample WRITE (header, struct, 5-byte payload) *)
+Example C02_src_table_nonvacuous :
+  List.length src_handlers = 43%nat /\
+  match find (fun e => se_op e =? 16) src_handlers with
+  | Some e => src_calls e sample_cfg (qhdr sample_write) (0, 0, 4242) (body sample_write) 0
+  | None => []
+  end =
+  [mk "write" (0, 0, 4242)
+      [AN 4660; AN 18446744073709551615; AB [104; 101; 108; 108; 111]; AN 5; AN 4096;
+       AO (Some 81985529216486895); ABool true; AN 32769; AN 3]].
+Proof. split; [reflexivity|exact src_calls_sample_write]. Qed.
+
+Print Assumptions C02_src_calls.
+Print Assumptions C02_src_table_covers_model.
+Print Assumptions C02_src_untranslated_are.
+Print Assumptions C02_src_decide_calls.
+Print Assumptions C02_src_calls_meet_spec.
+Print Assumptions C02_src_decide_encoded.
